@@ -745,6 +745,24 @@ def slice_resolution(ctx):
               expected='raise IndexError when the resolved index >= nmax')
     ok = any(e.exc[0] == 'call' and e.exc[1] == G('TypeError') for e in rsc)
     ctx.check(ok, R, 'scalar.type', ctx.where(fa), found=[T.show(e.exc) for e in rsc], expected='TypeError for other keys')
+    # the exact conditions of the scalar exits (complete path conditions, as sets of tests)
+    intlike = T.call(T.attr(V('self'), '_isintlike'), (s,))
+
+    def truths(e):
+        out = set()
+        for t in e.nguards:
+            out.update(t[1] if t[0] == 'and' else [t])
+        return out
+    for e in rsc:
+        if e.exc[0] == 'call' and e.exc[1] == G('TypeError'):
+            ctx.check(truths(e) == {T.not_(isl), T.not_(intlike)}, R, 'scalar.type.condition', ctx.where(fa, e),
+                      found=sorted(T.show(t) for t in truths(e)), expected='refused exactly when the key is neither a slice nor int-like',
+                      reason='otherwise valid scalar keys are refused (or invalid ones reach the arithmetic)')
+        if e.exc[0] == 'call' and e.exc[1] == G('IndexError'):
+            ctx.check(truths(e) == {T.not_(isl), intlike, upper}, R, 'scalar.upper-bound.condition', ctx.where(fa, e),
+                      found=sorted(T.show(t) for t in truths(e)), expected='refused exactly when an int-like key resolves to >= nmax')
+    ctx.check(truths(sc[0]) == {T.not_(isl), intlike, T.not_(upper)}, R, 'scalar.range.condition', ctx.where(fa, sc[0]),
+              found=sorted(T.show(t) for t in truths(sc[0])), expected='[s, s+1) is returned exactly for an int-like key that resolves below nmax')
 
 
 _run_core = run
